@@ -210,6 +210,13 @@ func runSignBytes() {
 			tbl.add(propValue("annchain", &types.Proposal{Height: 7, Round: 1, BlockPartsHeader: b.PartsHeader, POLRound: 0, POLBlockID: types.BlockID{Hash: b.Hash, PartsHeader: ph}}))
 		}
 	})
+	{
+		a := voteValue("a\"b", &types.Vote{Height: 1, Round: 0, Type: types.VoteTypePrevote, BlockID: gridB[3]})
+		b := voteValue("a\\\"b", &types.Vote{Height: 1, Round: 0, Type: types.VoteTypePrevote, BlockID: gridB[3]})
+		ba, _ := a.signBytes()
+		bb, _ := b.signBytes()
+		run.Sample(map[string]interface{}{"monitor": "sign-bytes", "chain_id_a": a.ChainID, "sign_bytes_a": string(ba), "chain_id_b": b.ChainID, "sign_bytes_b": string(bb)})
+	}
 	run.Count("signbytes_values_in_collision_table", tbl.n)
 	run.Count("signbytes_distinct_sign_bytes", int64(len(tbl.m)))
 	run.Count("evaluations", tbl.n)
